@@ -674,3 +674,228 @@ pub fn run(depth: usize, full: bool, dyn_ids: &[u64], deadline: std::time::Insta
     samples.push(json!({"history": [format!("{:?}", alpha[1]), format!("{:?}", alpha[alpha.len() / 2]), format!("{:?}", alpha[alpha.len() - 3])], "note": "one of the enumerated histories; every step is compared with the BTreeMap model and followed by a probe of all 6 keys"}));
     (st, samples)
 }
+
+// ---------------------------------------------------------------------------
+// type zoo: the map laws for resource types that are legitimate but unusual (boxed trait objects of `Resource`
+// itself, smart pointers, unit, tuples, options, collections): every history of <= `depth` operations
+// ---------------------------------------------------------------------------
+
+pub trait ZooTy: Resource + Sized {
+    const NAME: &'static str;
+    fn make(n: u64) -> Self;
+    fn read(&self) -> u64;
+}
+impl ZooTy for Box<dyn Resource> {
+    const NAME: &'static str = "Box<dyn Resource>";
+    fn make(n: u64) -> Self {
+        Box::new(n)
+    }
+    fn read(&self) -> u64 {
+        (**self).downcast_ref::<u64>().copied().unwrap_or(u64::MAX)
+    }
+}
+impl ZooTy for Box<u64> {
+    const NAME: &'static str = "Box<u64>";
+    fn make(n: u64) -> Self {
+        Box::new(n)
+    }
+    fn read(&self) -> u64 {
+        **self
+    }
+}
+impl ZooTy for std::sync::Arc<u64> {
+    const NAME: &'static str = "Arc<u64>";
+    fn make(n: u64) -> Self {
+        std::sync::Arc::new(n)
+    }
+    fn read(&self) -> u64 {
+        **self
+    }
+}
+impl ZooTy for u64 {
+    const NAME: &'static str = "u64";
+    fn make(n: u64) -> Self {
+        n
+    }
+    fn read(&self) -> u64 {
+        *self
+    }
+}
+impl ZooTy for () {
+    const NAME: &'static str = "()";
+    fn make(_: u64) -> Self {}
+    fn read(&self) -> u64 {
+        0
+    }
+}
+impl ZooTy for (u64, String) {
+    const NAME: &'static str = "(u64, String)";
+    fn make(n: u64) -> Self {
+        (n, n.to_string())
+    }
+    fn read(&self) -> u64 {
+        if self.1 == self.0.to_string() {
+            self.0
+        } else {
+            u64::MAX
+        }
+    }
+}
+impl ZooTy for Option<u64> {
+    const NAME: &'static str = "Option<u64>";
+    fn make(n: u64) -> Self {
+        if n % 2 == 0 {
+            Some(n)
+        } else {
+            None
+        }
+    }
+    fn read(&self) -> u64 {
+        self.unwrap_or(1)
+    }
+}
+impl ZooTy for Vec<Box<dyn Resource>> {
+    const NAME: &'static str = "Vec<Box<dyn Resource>>";
+    fn make(n: u64) -> Self {
+        vec![Box::new(n), Box::new(n as u8)]
+    }
+    fn read(&self) -> u64 {
+        self.first().and_then(|b| (**b).downcast_ref::<u64>().copied()).unwrap_or(u64::MAX)
+    }
+}
+impl ZooTy for std::sync::Mutex<u64> {
+    const NAME: &'static str = "Mutex<u64>";
+    fn make(n: u64) -> Self {
+        std::sync::Mutex::new(n)
+    }
+    fn read(&self) -> u64 {
+        *self.lock().unwrap()
+    }
+}
+
+#[derive(Clone, Copy, Debug, PartialEq, Eq)]
+pub enum ZOp {
+    Insert(u8),
+    InsertById(u8),
+    Remove(u8),
+    Entry,
+    SetupWrite,
+}
+
+fn zoo_history<T: ZooTy>(h: &[ZOp]) -> Result<(), (String, String, usize)> {
+    let ids = [ResourceId::new::<T>(), ResourceId::new_with_dynamic_id::<T>(1)];
+    let mut w = World::empty();
+    let mut model: [Option<u64>; 2] = [None, None];
+    let mut n = 10u64;
+    for (step, op) in h.iter().enumerate() {
+        n += 2;
+        let fail = |sig: &str, msg: String| (sig.to_string(), format!("{} [resource type {}]", msg, T::NAME), step);
+        let r = catch_unwind(AssertUnwindSafe(|| -> Result<(), (String, String)> {
+            match *op {
+                ZOp::Insert(_) => {
+                    w.insert(T::make(n));
+                    model[0] = Some(T::make(n).read());
+                }
+                ZOp::InsertById(d) => {
+                    w.insert_by_id(ids[d as usize].clone(), T::make(n));
+                    model[d as usize] = Some(T::make(n).read());
+                }
+                ZOp::Remove(d) => {
+                    let got = if d == 0 { w.remove::<T>() } else { w.remove_by_id::<T>(ids[1].clone()) };
+                    let got = got.map(|v| v.read());
+                    if got != model[d as usize] {
+                        return Err(("remove-returns-wrong-value".into(), format!("remove of slot {} returned {:?}, the model holds {:?}", d, got, model[d as usize])));
+                    }
+                    model[d as usize] = None;
+                }
+                ZOp::Entry => {
+                    // (the stored value's type is looked at before anything is read through a typed guard)
+                    drop(w.entry::<T>().or_insert_with(|| T::make(n)));
+                    if w.get_mut_raw(ids[0].clone()).map(|r| r.is::<T>()) != Some(true) {
+                        return Err(("stored-value-has-another-type".into(), "after entry().or_insert_with the value stored in slot 0 is not of the slot's type".to_string()));
+                    }
+                    let v = w.entry::<T>().or_insert_with(|| T::make(n + 1)).read();
+                    let want = model[0].unwrap_or(T::make(n).read());
+                    if v != want {
+                        return Err(("entry-overwrote-or-lost-value".into(), format!("entry().or_insert_with gave {}, expected {}", v, want)));
+                    }
+                    model[0] = Some(want);
+                }
+                ZOp::SetupWrite => {
+                    // the typed read path of system data over this type
+                    if model[0].is_some() {
+                        let v = w.exec(|d: shred::ReadExpect<T>| d.read());
+                        if Some(v) != model[0] {
+                            return Err(("fetch-differs".into(), format!("ReadExpect sees {}, the model holds {:?}", v, model[0])));
+                        }
+                    }
+                }
+            }
+            Ok(())
+        }));
+        match r {
+            Ok(Ok(())) => {}
+            Ok(Err((sig, msg))) => return Err(fail(&sig, msg)),
+            Err(p) => return Err(fail("well-typed-call-panicked", format!("{:?} panicked: {}", op, payload_str(&*p)))),
+        }
+        // probes on both slots
+        for d in 0..2usize {
+            let id = ids[d].clone();
+            if w.has_value_raw(id.clone()) != model[d].is_some() {
+                return Err(fail("presence-differs", format!("after {:?}: slot {} present = {}, model says {}", op, d, w.has_value_raw(id), model[d].is_some())));
+            }
+            let is_t = w.get_mut_raw(id.clone()).map(|r| r.is::<T>());
+            if is_t != model[d].map(|_| true) {
+                return Err(fail("stored-value-has-another-type", format!("after {:?}: the value stored in slot {} is a {}: {:?} (None = absent), the model holds {:?}", op, d, T::NAME, is_t, model[d])));
+            }
+            let got = catch_unwind(AssertUnwindSafe(|| w.try_fetch_by_id::<T>(id.clone()).map(|g| g.read()))).map_err(|p| fail("well-typed-call-panicked", format!("try_fetch_by_id on slot {} panicked: {}", d, payload_str(&*p))))?;
+            if got != model[d] {
+                return Err(fail("fetch-differs", format!("after {:?}: slot {} fetches as {:?}, the model holds {:?}", op, d, got, model[d])));
+            }
+        }
+    }
+    Ok(())
+}
+
+fn zoo_type<T: ZooTy>(depth: usize, col: &mut Collector) -> u64 {
+    let alpha = [ZOp::Insert(0), ZOp::InsertById(0), ZOp::InsertById(1), ZOp::Remove(0), ZOp::Remove(1), ZOp::Entry, ZOp::SetupWrite];
+    let mut count = 0u64;
+    let mut level: Vec<Vec<ZOp>> = vec![vec![]];
+    for _ in 0..depth {
+        let mut next = Vec::new();
+        for h in &level {
+            for op in &alpha {
+                let mut h2 = h.clone();
+                h2.push(*op);
+                count += 1;
+                match zoo_history::<T>(&h2) {
+                    Ok(()) => next.push(h2),
+                    Err((sig, msg, at)) => col.add(Finding {
+                        prop: "C09".into(),
+                        sig,
+                        msg: format!("{} | at step {} of history {:?}", msg, at, h2),
+                        replay: json!({"kind":"c09-zoo-history","type":T::NAME,"history": h2.iter().map(|o| format!("{:?}", o)).collect::<Vec<_>>()}),
+                        size: h2.len(),
+                    }),
+                }
+            }
+        }
+        level = next;
+    }
+    count
+}
+
+/// every history of <= `depth` operations for each zoo type; returns (types, histories)
+pub fn zoo_sweep(depth: usize, col: &mut Collector) -> (u64, u64) {
+    let mut n = 0;
+    n += zoo_type::<Box<dyn Resource>>(depth, col);
+    n += zoo_type::<Box<u64>>(depth, col);
+    n += zoo_type::<std::sync::Arc<u64>>(depth, col);
+    n += zoo_type::<u64>(depth, col);
+    n += zoo_type::<()>(depth, col);
+    n += zoo_type::<(u64, String)>(depth, col);
+    n += zoo_type::<Option<u64>>(depth, col);
+    n += zoo_type::<Vec<Box<dyn Resource>>>(depth, col);
+    n += zoo_type::<std::sync::Mutex<u64>>(depth, col);
+    (9, n)
+}
